@@ -53,6 +53,9 @@ TRIG = {
     "attribute": "![a](b){width=1x}\n",
     "substitution": "{{ undefined_var }}\n",
     "footnote": "[^u]: unref\n",
+    "deflist_term": "{#dlid}\nTerm {norole}`x`\n: definition\n\n[](#dlid)\n",  # implicit link text taken from a term that holds a warning
+    "field_name": "{#flid}\n:field {norole}`y`: body\n\n[](#flid)\n",
+    "deprecated_ext": "![a](b.png){width=10px}\n",  # needs attrs_image among the extensions (added by run)
     "heading_slug": None,  # needs a raising slug function (separate setting)
     "topmatter": None,  # must be first in the document: handled by the frame
 }
@@ -65,6 +68,7 @@ EXPECT = {
     "strikethrough": {"myst.strikethrough"}, "html": {"myst.html"},
     "attribute": {"myst.attribute"}, "substitution": {"myst.substitution"}, "footnote": {"ref.footnote"},
     "topmatter": {"myst.topmatter"}, "heading_slug": {"myst.heading_slug"},
+    "deflist_term": {"myst.role_unknown"}, "field_name": {"myst.role_unknown"}, "deprecated_ext": {"myst.deprecated"},
 }
 
 
@@ -284,6 +288,8 @@ class DocutilsSystem(System):
         st = dict(self.settings)
         if slug:
             st["myst_heading_slug_func"] = _raise_slug
+        if "deprecated_ext" in combo:
+            st["myst_enable_extensions"] = EXT + ["attrs_image"]
         src = str(self.dir / "x.md")
         viol = []
 
